@@ -330,6 +330,11 @@ def cmd_check(args):
             if e.get("status") == "open":
                 if still:
                     active.add(e["id"])
+                elif e.get("nondeterministic"):
+                    # the defect depends on memory reuse / scheduling: a witness that happens to pass proves
+                    # nothing, so the listed cases stay constructed-around (the finding is still listed)
+                    active.add(e["id"])
+                    log("[known] witness of %s did not reproduce this time (nondeterministic finding); its selector stays active" % e["id"])
                 else:
                     log("[known] %s no longer reproduces; its selector is disabled for this run" % e["id"])
             else:  # fixed: must pass
